@@ -59,7 +59,7 @@ class LifeGen(storegen.HistGen):
 
 def given_meta(b, m):
     return {"type": m["type"], "client": m["client"], "hostname": m["hostname"],
-            "created": storelib.created_iso(m["created_us"]), "name": m.get("name"),
+            "created": m["created_us"], "name": m.get("name"),
             "data": canon_data(json.loads(m["data"]) if m.get("data") else {})}
 
 
